@@ -34,6 +34,9 @@ var c10CDPSets = [][]string{
 	{"ldap://dir.test/cn=crl", "http://crl.test/a.crl"},
 	{"http://crl.test/a.crl", "http://crl.test/b.crl"},
 	{"file:///etc/crl/a.crl"},
+	// location strings shorter than any scheme name the loader factory knows
+	{"x:1"},
+	{"a:", "http://crl.test/a.crl"},
 }
 
 func (c c10Cfg) String() string {
